@@ -195,12 +195,12 @@ impl G {
         }
     }
     fn cond(&mut self, depth: u32) -> String {
-        // mostly "variable op literal", the shape the generator handles best
-        let vars = self.char_vars();
-        let a = if vars.is_empty() || self.r.chance(1, 6) { self.expr(depth.min(1)) } else { self.pick(&vars).name.clone() };
-        let b = if self.r.chance(2, 3) { format!("{}", self.r.below(200)) } else { self.expr(0) };
+        // "variable op literal" is the shape the compiler handles; constants on the left are folded by
+        // paths that are "partially implemented", so they are rare here
+        let a = if self.r.chance(1, 12) { self.expr(1) } else { self.simple_var() };
+        let b = if self.r.chance(3, 4) { format!("{}", self.r.below(200)) } else { self.simple_var() };
         let op = *self.pick(&["==", "!=", "<", "<=", ">", ">="]);
-        match self.r.below(12) {
+        match self.r.below(14) {
             0 => a,
             1 => format!("!{}", a),
             2 if depth > 0 => format!("{} {} {} && {}", a, op, b, self.cond(depth - 1)),
@@ -363,7 +363,7 @@ impl G {
             7 => {
                 let s = match self.r.below(6) {
                     0 => "asm(\"NOP\", 1);".to_string(),
-                    1 => format!("csleep({});", 2 + self.r.below(11)),
+                    1 => format!("csleep({});", *self.pick(&[2u32, 4, 6, 7, 8, 2, 4, 3, 9, 12])),
                     2 => format!("load({});", self.expr(0)),
                     3 => format!("store({});", self.lvalue()),
                     4 => ";".to_string(),
@@ -430,7 +430,7 @@ impl G {
                 out.push_str(&format!("{}}}\n", ind));
             }
             17 | 18 => {
-                let e = if self.r.chance(1, 5) { self.expr(1) } else { self.simple_var() };
+                let e = if self.r.chance(1, 10) { self.expr(1) } else { self.simple_var() };
                 out.push_str(&format!("{}switch ({}) {{\n", ind, e));
                 let ncases = self.r.below(5);
                 let mut used = Vec::new();
